@@ -180,6 +180,17 @@ func initPool() {
 		pool["bad"] = append(append([]byte{}, small...), small2[:len(small2)*2/3]...)
 		pool["garbage"] = []byte("this is not a sequence file\n")
 		pool["empty"] = []byte{}
+		// inputs larger than 64 KiB (commands that spool or buffer their standard input switch strategy with size): the
+		// same three-record stream twice, differing in one residue of the last record, and a large invalid stream
+		big := bytes.Repeat(phix, 3)
+		big2 := append([]byte{}, big...)
+		if k := bytes.LastIndex(big2, []byte("gccgccgtga")); k >= 0 {
+			big2[k] = 't'
+		} else {
+			big2[len(big2)-20] = 't'
+		}
+		pool["big"], pool["big2"] = big, big2
+		pool["bigbad"] = append(append([]byte{}, big...), small2[:len(small2)*2/3]...)
 		for name, data := range map[string][]byte{
 			"guest.gb": guest, "guest2.gb": guest2, "guest3.gb": guest3, "guest.fasta": []byte(">g\nggttcc\n"), "guest2.fasta": []byte(">other description\nggttcc\n"),
 			"host.gb": small2, "host2.gb": small, "host3.gb": host3,
